@@ -85,7 +85,7 @@ func c18Receivers(tier string) []c18Recv {
 		{mtInt, []*mval{vI(0), vI(3), vI(-2)}},
 		{mtFloat, []*mval{vF(1.5), vF(2.0), vF(-0.5)}},
 		{mtBool, []*mval{vB(true), vB(false)}},
-		{mtStr, []*mval{vS(""), vS("a"), vS("a,b,c"), vS("12")}},
+		{mtStr, []*mval{vS(""), vS("a"), vS("a,b,c"), vS("12"), vS("äbc"), vS("é")}},
 		{mtNull, []*mval{vNull()}},
 		{mtRange, []*mval{vRange(0, 0), vRange(0, 1), vRange(0, 3), vRange(3, 0)}},
 		{mtList(mtInt), []*mval{vL(), vL(vI(1)), vL(vI(3), vI(1), vI(2))}},
@@ -105,7 +105,7 @@ func c18Receivers(tier string) []c18Recv {
 			c18Recv{mtList(mtOpt(mtInt)), []*mval{vL(), vL(vNone()), vL(vSome(vI(1)), vNone(), vSome(vI(2)))}},
 			c18Recv{mtList(mtAnyObj), []*mval{vL(), vL(vAO("a", vI(1)))}},
 			c18Recv{mtOpt(mtList(mtInt)), []*mval{vNone(), vSome(vL()), vSome(vL(vI(1)))}},
-			c18Recv{mtStr, []*mval{vS("é"), vS("A b"), vS("1.5"), vS("true")}},
+			c18Recv{mtStr, []*mval{vS("A b"), vS("1.5"), vS("true")}},
 			c18Recv{mtInt, []*mval{vI(math.MaxInt64)}},
 			c18Recv{mtFloat, []*mval{vF(1e300), vF(2.5), vF(-1.5)}},
 		)
@@ -213,7 +213,7 @@ func c18Cases(tier string) []c18Case {
 				}
 			}
 			// indexing
-			if rs.T.K == mkList || (rs.T.K == tStr && utf8.RuneCountInString(recv.S) == len(recv.S)) {
+			if rs.T.K == mkList || rs.T.K == tStr {
 				ret := mtStr
 				if rs.T.K == mkList {
 					ret = rs.T.Elem
@@ -304,6 +304,11 @@ func c18Reference(c c18Case) c18Ref {
 		return c18Ref{Status: "unspec"}
 	}
 	if c.Via == "index" {
+		if r.K == mStr && utf8.RuneCountInString(r.S) != len(r.S) {
+			// whether a non-ASCII string is indexed by byte or by character is left open; only the
+			// "never a crash, result of the advertised kind or an interrupt" part is judged
+			return c18Ref{Status: "unspec"}
+		}
 		i, in := normIndex(a[0].I, recvLen(r), false)
 		if !in {
 			return c18Ref{Status: "interrupt"}
@@ -399,6 +404,9 @@ func c18Reference(c c18Case) c18Ref {
 			// the name fixes only: a prefix of the receiver; negative bounds count from the end;
 			// a bound beyond the end is out of range
 			n := utf8.RuneCountInString(r.S)
+			if n != len(r.S) {
+				return c18Ref{Status: "unspec"} // bytes or characters: left open for non-ASCII receivers
+			}
 			u := a[0].I
 			if u < 0 {
 				u += int64(n)
